@@ -144,6 +144,9 @@ def unit_linked_list(dim, layout, move=False, timeout_ms=20000,
             _cex(out, c, dim, layout, what, ncex, findings, coords=None,
                  kind="oob")
             continue
+        if path.exc is not None and "solver said unknown" in str(path.exc):
+            out["undecided"].append("path %d: %s" % (k, path.exc))
+            continue
         if path.exc is not None:
             out.setdefault("harness_errors", []).append(
                 "lowered code raised %r" % (path.exc,))
@@ -357,13 +360,14 @@ def main():
     for dim, lay, mv in cfgs:
         units.append(("vf.props.c01", "unit_linked_list",
                       dict(dim=dim, layout=lay, move=mv,
+                           deadline_s=200 if t == "quick" else 1400,
                            max_paths=3000 if t == "quick" else 20000)))
     units.append(("vf.props.c01", "unit_linked_list",
                   dict(dim=1, layout=(1,), fixed_cell=False)))
     if t != "quick":
         units.append(("vf.props.c01", "unit_linked_list",
                       dict(dim=1, layout=(2,), fixed_cell=False,
-                           max_paths=20000)))
+                           deadline_s=1400, max_paths=20000)))
     rep.bounds = dict(algorithm="LinkedListNNPS only (cache off)",
                       configurations=[dict(dim=d, particles_per_array=l,
                                            move_then_update=m)
